@@ -557,6 +557,14 @@ class Gen:
             b = self.gen_arg(kind, env, owner, depth + 1)
             if ch.coin(0.5, "cond-cmp"):
                 c = ("op", "<", c, ("lit", 500000))
+            if self.has("condn") and ch.coin(0.45, "cond-multi-clause"):
+                # cond(c1, a1, c2, a2, ..., otherwise): emitted as one multi-clause call; its
+                # meaning is that of the nested conditionals held here
+                c2 = self.gen_arg("int", env, owner, depth + 1)
+                if ch.coin(0.5, "cond2-cmp"):
+                    c2 = ("op", "<", c2, ("lit", [0, 500000][ch.choice(2, "cond2-bound")]))
+                a2 = self.gen_arg(kind, env, owner, depth + 1)
+                return ("cond", c, a, ("cond", c2, a2, b), "flat")
             return ("cond", c, a, b)
         if p == "catch":
             inner = self.gen_expr(kind, env, owner, depth + 1)
@@ -821,6 +829,13 @@ def expr_src(prog: Program, node: Any) -> str:
     if k == "attr":
         return f"{S(node[1])}.{node[2]}"
     if k == "cond":
+        if len(node) > 4 and node[4] == "flat" and node[3][0] == "cond":
+            parts, cur = [], node
+            while len(cur) > 4 and cur[4] == "flat" and cur[3][0] == "cond":
+                parts += [S(cur[1]), S(cur[2])]
+                cur = cur[3]
+            parts += [S(cur[1]), S(cur[2]), S(cur[3])]
+            return "cond(" + ", ".join(parts) + ")"
         return f"cond({S(node[1])}, {S(node[2])}, {S(node[3])})"
     if k == "seq":
         return "seq([" + ", ".join(S(x) for x in node[1]) + "])"
